@@ -36,6 +36,8 @@ impl Tier {
 pub fn build_name() -> &'static str {
     if cfg!(miri) {
         "miri"
+    } else if cfg!(verif_nat) {
+        "simnat"
     } else if cfg!(debug_assertions) {
         "simdbg"
     } else {
@@ -384,7 +386,9 @@ pub fn search<P: Prop>(p: &P, opts: &Opts) -> Outcome<P::Case> {
 
 /// The two native builds use different streams so that together they cover more cases.
 pub fn stream_tag() -> &'static str {
-    if cfg!(debug_assertions) {
+    if cfg!(verif_nat) {
+        "nat"
+    } else if cfg!(debug_assertions) {
         "dbg"
     } else {
         "rel"
